@@ -69,4 +69,28 @@ inductive StoreKind
   | other (src : String)
   deriving DecidableEq, Repr, Inhabited
 
+/-- Type constructors that occur in the Send/Sync analysis. -/
+inductive TyName
+  | prodIter | workIter | consIter | detached | asyncProdIter | asyncWorkIter | asyncConsIter | asyncDetached
+  | bufRef | unsafeSyncCell | mrbFuture | concurrentMutRingBuf | localMutRingBuf
+  | nonNull | usize | bool | phantomData | option | unsafeCell | innerParam
+  | other (s : String)
+  deriving DecidableEq, Repr, Inhabited
+
+inductive AutoTrait | send | sync
+  deriving DecidableEq, Repr, Inhabited
+
+/-- One `impl Send/Sync for <ty>` found in the source, with the bounds that matter. -/
+structure AutoImpl where
+  ty : TyName
+  tr : AutoTrait
+  negative : Bool
+  reqConcurrent : Bool      -- `B: ConcurrentRB`
+  reqItemSend : Bool        -- `T: Send` for the item type
+  reqItemSync : Bool
+  reqInnerSend : Bool       -- `I: Send` for the wrapped iterator
+  reqInnerSync : Bool
+  otherBounds : List String
+  deriving DecidableEq, Repr, Inhabited
+
 end MRB
